@@ -29,8 +29,13 @@ UNITS = {}   # prop -> [(name, func, opts)]
 
 
 def unit(prop, name, **opts):
+    """register a proof unit for one property or a tuple of properties (obligations carry their own property id;
+    `./check Cxx` discharges and reports exactly those tagged Cxx)"""
+    props = (prop,) if isinstance(prop, str) else tuple(prop)
+
     def deco(f):
-        UNITS.setdefault(prop, []).append((name, f, opts))
+        for p in props:
+            UNITS.setdefault(p, []).append((name, f, opts))
         return f
     return deco
 
@@ -269,7 +274,7 @@ def _run_unit(job):
            "assumptions": [], "not_decided": [], "bounded": []}
     try:
         obs = func(ctx)
-        obs = list(obs or [])
+        obs = [ob for ob in list(obs or []) if (ob.prop or prop) == prop]
         for i, ob in enumerate(obs):
             r = discharge(ob, want_smt=(i % 37 == 0))
             r["unit"] = name
@@ -408,7 +413,8 @@ def main(argv=None):
         if r["result"] == "unknown":
             undecided.append(f"obligation={r['name']} reason=solver-unknown")
     if a.update_lock and not a.only:
-        lock[prop] = kinds
+        # only obligations that hold are expected to be generated again (a failing path's obligation disappears with the defect)
+        lock[prop] = sorted({strip_idx(r["name"]) for r in results if r["result"] == "unsat"})
         json.dump(lock, open(lock_path, "w"), indent=0, sort_keys=True)
     elif not a.only:
         missing = [k for k in lock.get(prop, []) if k not in set(kinds)]
